@@ -1,5 +1,6 @@
 import LunarVerif.Generated.C18Facts
 import LunarVerif.Spec.C18Sharing
+import LunarVerif.Proofs.C18Publish
 /-!
 # C18 — Concurrent transactions do not corrupt or share engine state
 
@@ -138,5 +139,50 @@ theorem sequential_second_txn_witness :
 theorem context_nil_after_any_run (fuel : Nat) (ss : Scripts) (st : TCtx) (t : String) :
     (runTxn fuel ss st t).1 = none := by
   cases fuel <;> simp [runTxn, runTxnWith]
+
+end LunarVerif.C18
+
+/-! ## Part (c): hand-off to the background loop (model `Model/C18Publish.lean`) -/
+namespace LunarVerif.C18
+open Publish
+
+/-- Register-before-publish, for every number of producers and EVERY interleaving of their steps
+    with the loop's pops: if each producer registers its Request before it publishes the id, the
+    loop never forgets a live request, and every published id is still queued or was handled. -/
+theorem no_request_lost (progs : List (Nat × List PStep)) (evs : List PEv)
+    (h : ∀ e ∈ progs, regBeforePub e.2 = true) :
+    (run evs (init progs)).lost = [] ∧
+    ∀ i ∈ (run evs (init progs)).published,
+      i ∈ (run evs (init progs)).queue ∨ i ∈ (run evs (init progs)).handled := by
+  have := inv_run evs (init progs) (inv_init progs h)
+  exact ⟨this.2.2.1, this.2.2.2⟩
+
+/-- the hypothesis is needed: publishing first loses the request on the schedule
+    publish · tick · register -/
+theorem publish_first_loses_witness :
+    (run [.prod 1, .tick, .prod 1] (init [(1, [.publish, .register])])).lost = [1] := by decide
+
+/-- the producer program of the CURRENT source (call sites of `enqueueIfSlotAvailable`) -/
+def extractedProducer : List PStep :=
+  progOfCalls ((Generated.orderFacts.lookup "processorqueue.queueProcessor.enqueueIfSlotAvailable").getD [])
+
+/-- Obligation re-checked on every run against the regenerated call-order facts: the functions exist,
+    the producer does register and publish, and registers first. -/
+theorem publish_order_facts :
+    Generated.orderMissing = [] ∧ doesBoth extractedProducer = true ∧ regBeforePub extractedProducer = true := by
+  decide
+
+/-- ... so with the code as it is NOW no schedule of any set of queued transactions and loop passes
+    makes the loop forget a waiting request. -/
+theorem no_request_lost_extracted (ids : List Nat) (evs : List PEv) :
+    (run evs (init (ids.map fun i => (i, extractedProducer)))).lost = [] := by
+  refine (no_request_lost _ evs ?_).1
+  intro e he
+  obtain ⟨i, _, rfl⟩ := List.mem_map.1 he
+  exact publish_order_facts.2.2
+
+/-- non-vacuity: two producers fully interleaved with loop passes are both handled -/
+example : (run [.prod 1, .prod 2, .prod 1, .tick, .prod 2, .prod 2, .prod 1, .prod 1, .prod 2, .prod 2, .tick, .tick]
+    (init [(1, extractedProducer), (2, extractedProducer)])).handled.length = 2 := by decide
 
 end LunarVerif.C18
